@@ -1173,6 +1173,19 @@ def compare_values(fw_events, py_events):
     return None
 
 
+def out_of_range(py_events):
+    """a run whose CPython values leave the range a 32-bit C int carries is outside the guard of the value oracle
+    (C int width is C01's no-overflow guard, un-modelled here): every assigned value is written, so a blow-up shows"""
+    for e in py_events:
+        if e.startswith("S ") and "\t" in e:
+            text, ty = e[2:].rsplit("\t", 1)
+            if ty in ("int", "float"):
+                v = _num(text)
+                if v is not None and abs(v) >= 2 ** 30:
+                    return True
+    return False
+
+
 def run_value_pairs(srcs, inputs, loops):
     tr = fw.transpile_many(srcs)
     py = fw.pyrun_many([{"src": s_, "input": i, "loops": l} for s_, i, l in zip(srcs, inputs, loops)])
@@ -1190,6 +1203,8 @@ def run_value_pairs(srcs, inputs, loops):
         r = res[k]
         if y["exc"]:
             out.append({"status": "py-undefined", "exc": y["exc"]})
+        elif out_of_range(y["events"]):
+            out.append({"status": "outside-int-range"})
         elif not r["compiled"]:
             out.append({"status": "nocompile", "log": r["compile_log"][-800:], "cpp": t["cpp"]})
         elif r["rc"] != 0:
@@ -1368,7 +1383,8 @@ def run(ctx: C.Ctx):
                   "construction of the generator): every label assigned to a name is <= the label of its declaring (first in text order) assignment in "
                   "bool < int < float, String alone; a name whose current label is below its declared one is not read by a right-hand side; names first "
                   "assigned inside a nested block keep one label; helper bodies read only parameters and locals; call arguments are variables or "
-                  "int/bool literals; no `//`, `%`, `**`, int `/` int, str() of a bool (C01's operator/text-form findings). (d) adds: a parameter is "
+                  "int/bool literals; no `//`, `%`, `**`, int `/` int, str() of a bool (C01's operator/text-form findings); a run in which CPython "
+                  "computes a number of magnitude >= 2^30 is outside the guard (32-bit C int; counted as outside-int-range, never blamed). (d) adds: a parameter is "
                   "only re-assigned at the kind of its call signature (F-C02-param-declared-from-last-label); names first assigned directly inside a "
                   "loop body are never names an if/else hoists anywhere in the program (F-C02-stale-promotion-type); function-local names never "
                   "coincide with globals; return expressions all str or all numeric; a helper that calls another helper shares no local name with it "
